@@ -65,19 +65,16 @@ TWait ==
     /\ (Fetch(E.w) \/ Wake(E.w))
     /\ ws'[E.w] = (IF E.timed = 1 THEN "waitT" ELSE "waitU") /\ waitingCnt' = E.waiting
 
-\* back under the lock after a wait. With received = 0 and an empty queue the thread exits: Wake(w)
-\* and Exit(w) in one step (there is no scheduling point between the unlock and the un-registration);
-\* otherwise the mark is only compared with the state (the following take / wait event is the action)
+\* back under the lock after a wait. With received = 0 and an empty queue the thread is on its way out: Wake(w)
+\* (it un-registers as waiting under the lock); its active registration is dropped after the lock has been
+\* released -- the silent step Exit(w) below, at any later point.  Otherwise the mark is only compared with the
+\* state (the following take / wait event is the action)
 TWake ==
     /\ Consume /\ E.ev = "wake"
     /\ ws[E.w] = "woken" /\ tmo[E.w] = (E.received = 0)
     /\ Len(todo) = E.todo /\ waitingCnt = E.waiting
     /\ IF E.received = 0 /\ E.todo = 0
-       THEN /\ ws' = [ws EXCEPT ![E.w] = "exited"]
-            /\ tmo' = [tmo EXCEPT ![E.w] = FALSE]
-            /\ waitingCnt' = waitingCnt - 1
-            /\ activeCnt' = IF activeCnt >= BIG THEN activeCnt ELSE activeCnt - 1
-            /\ UNCHANGED <<todo, task, next, created, ran, dropped>>
+       THEN Wake(E.w) /\ ws'[E.w] = "exiting"
        ELSE Same
 
 TFinish == Consume /\ E.ev = "finish" /\ Finish(E.w)
@@ -103,6 +100,14 @@ TSilent ==
        \/ /\ E.ev = "dispatch" /\ E.spawn = 0
           /\ ~\E i \in 1..Len(E.nw) : ws[E.nw[i]] \in {"waitU", "waitT"}
           /\ FireSet({w \in TwSet : ws[w] = "waitT"})
+       \* a retiring thread drops its active registration (not logged; after the lock was released).  When
+       \* exactly only matters to the next reader of the counter, so it is taken as late as possible: before a
+       \* `start` that logged a smaller count, or before a `wait` that was untimed although the count was
+       \* above the minimum.  Which retiring thread goes first is immaterial: the lowest-numbered one.
+       \/ /\ \/ E.ev = "start" /\ E.active >= 0 /\ activeCnt < BIG /\ activeCnt + 1 > E.active
+             \/ E.ev = "wait" /\ E.timed = 0 /\ activeCnt < BIG /\ activeCnt > MinThreads
+          /\ \E w \in Workers : /\ ws[w] = "exiting" /\ \A v \in Workers : ws[v] = "exiting" => w <= v
+                                 /\ Exit(w)
 
 \* the register is advanced only by a step that was actually taken (all of its guards held)
 TNext == (TReset \/ TDispatch \/ TStart \/ TTake \/ TWait \/ TWake \/ TFinish \/ TDrop \/ TSilent) /\ Reach(l')
